@@ -646,6 +646,8 @@ def trace_ops(obs):
             # it is handed; the model's `unreg` names the object whose records are withdrawn and whose goodbye task runs
             tgt = registered.pop(e[4]["name"].lower(), e[3])
             ops.append(("flush %d" % t, "ok", t))
+            if tgt == e[3]:
+                known[tgt] = e[4]  # the object handed in is the one worked on: its fields as they are now
             ops.append(("unreg %d %d %s" % (oid(tgt), t, svc_tokens(known.get(tgt, e[4]))), "-", t))
             known.setdefault(tgt, e[4])
         elif k == "close":
